@@ -670,7 +670,7 @@ def w_send(arg):
 # AVDTP stream state machine
 # ===========================================================================
 API_OPS = ['configure', 'open', 'start', 'stop', 'close', 'abort']
-RAW_OPS = ['set_configuration', 'open', 'start', 'suspend', 'close', 'abort']
+RAW_OPS = ['set_configuration', 'open', 'start', 'suspend', 'close', 'abort', 'start_bad', 'suspend_bad']  # *_bad: the command names this stream AND an end point that does not exist: refused as a whole
 
 API_TABLE = {
     ('IDLE', 'configure'): 'CONFIGURED',
@@ -832,6 +832,10 @@ class StreamBed:
                     return ('hang', 'transport channel')
                 self.raw_channel = ch[1]
             return r
+        if op == 'start_bad':
+            return self.do(c.start([seid, 0x3E]))
+        if op == 'suspend_bad':
+            return self.do(c.suspend([seid, 0x3E]))
         if op == 'start':
             return self.do(c.start([seid]))
         if op == 'suspend':
